@@ -27,19 +27,19 @@ func (n *Node) exited() bool { return n.Exit != nil }
 
 // ExecView groups everything recorded about one execution.
 type ExecView struct {
-	ID       int
-	Op       *Op
-	StackIdx int
-	Stack    []int
-	Events   []*Event
-	Root     *Node
-	Nodes    []*Node
-	OpStart  *Event
-	OpEnd    *Event
-	FnStarts []*Event
-	FnEnds   []*Event
-	Cancel0  *Event // cancellation source began to fire
-	Cancel1  *Event // cancellation source call returned
+	ID        int
+	Op        *Op
+	StackIdx  int
+	Stack     []int
+	Events    []*Event
+	Root      *Node
+	Nodes     []*Node
+	OpStart   *Event
+	OpEnd     *Event
+	FnStarts  []*Event
+	FnEnds    []*Event
+	Cancel0   *Event // cancellation source began to fire
+	Cancel1   *Event // cancellation source call returned
 	Listeners []*Event
 }
 
